@@ -74,9 +74,9 @@ def zmax(a, b):
     return z3.If(a >= b, a, b)
 
 
-def typed_opaque(eng, name, methods):
+def typed_opaque(eng, name, methods, term=None):
     """an opaque object with contracted methods; every method call is logged as ('method', name)"""
-    o = eng.obj(name)
+    o = eng.obj(name) if term is None else term
     eng.assume(z3.Not(isnone_of(o)))
     table = {}
     for mname, h in methods.items():
